@@ -102,6 +102,22 @@ class Link(base.BaseObject):
         self._vertices.append(new)
         if (new is not None) and (self not in new.links):
             new.add_to_link(self)
+        self._invalidate_ends()
+
+    def _invalidate_ends(self):
+        """
+        Invalidate the cached neighbors of every vertex this link joins.
+
+        **FOR INTERNAL USE ONLY!!**
+
+        Must be called whenever the list of vertices of this link changes: the
+        neighbors of *every* end depend on it, not only those of the vertex
+        that was added or removed.
+        """
+        for vert in self._vertices:
+            if vert is not None:
+                # pylint: disable-next=protected-access
+                vert._qa_neighbors_invalidate()
 
     def unlink_from(self, kill: Vertex):
         """
@@ -122,3 +138,5 @@ class Link(base.BaseObject):
                 # link entirely
                 self._vertices = [v for v in self._vertices if v is not kill]
                 kill.remove_from_link(self)
+
+            self._invalidate_ends()
